@@ -9,6 +9,8 @@ use self::reader::Read as _;
 use crate::symbol::Register;
 
 pub use self::reader::CommandReader;
+#[cfg(lace_verif)]
+pub use self::reader::VerifTerminal;
 
 #[derive(Debug)]
 #[cfg_attr(test, derive(PartialEq))]
